@@ -254,6 +254,7 @@ def job_interp(job, cls, nx, nt, rerun=None):
         job.prove(f"{tag}/interpolator is the final recovery after the last time[path{k}]",
                   pr.pc + [T.b_lt(P(t[-1]), P(q)), T.b_not(T.b_eq0(T.p_sub(P(fq), P(rf[-1]))))], bound=f"nt={nt}", replay=rp)
         job.prove(f"{tag}/recovery starts at 0[path{k}]", pr.pc + [T.b_not(T.b_eq0(P(rf[0])))], bound=f"nt={nt}", replay=rp)
+        job.prove(f"{tag}/reach[path{k}]", pr.pc, expect="sat", elim=True)
 
 
 def jobs(tier):
